@@ -64,17 +64,20 @@ class StreamControl:
     def stop_all_streams(self, error_code=ErrorCode.CANCELED, data=b''):
         logger().debug('Stopping all streams')
         for stream_id, stream in list(self._streams.items()):
-            if isinstance(stream, Requester):
-                frame = ErrorFrame()
-                frame.stream_id = stream_id
-                frame.error_code = error_code
-                frame.data = data
-                stream.frame_received(frame)
+            try:
+                if isinstance(stream, Requester):
+                    frame = ErrorFrame()
+                    frame.stream_id = stream_id
+                    frame.error_code = error_code
+                    frame.data = data
+                    stream.frame_received(frame)
 
-            if isinstance(stream, Disposable):
-                stream.dispose()
-
-            self.finish_stream(stream_id)
+                if isinstance(stream, Disposable):
+                    stream.dispose()
+            except Exception:
+                logger().error('Error while stopping stream %s', stream_id, exc_info=True)
+            finally:
+                self.finish_stream(stream_id)
 
     def is_stream_registered(self, stream_id: int) -> bool:
         return stream_id in self._streams
